@@ -483,6 +483,32 @@ func buildValSpecs() []valSpec {
 		}})
 	anyOK := func(j any) string { return "" }
 	anyPair := func(p logfmt.Pair) string { return "" }
+	// a nil pointer inside the error interface (its Error method copes with the nil receiver)
+	add(valSpec{Name: "error:typed-nil", Kind: "error", Mk: func() any { return error((*tnErr)(nil)) }, JSON: anyOK, Logfmt: anyPair})
+	// values that implement encoding.TextMarshaler next to Stringer / error (net.IP, *big.Int, *regexp.Regexp are of this kind)
+	add(valSpec{Name: "stringer+textmarshaler", Kind: "stringer", Mk: func() any { return tmStringer{"tm \"x\" y=z\n"} },
+		JSON: func(j any) string { return jsonStringIs(j, "tm \"x\" y=z\n") },
+		Logfmt: func(p logfmt.Pair) string {
+			if !p.Quoted || p.Val != "tm \"x\" y=z\n" {
+				return fmt.Sprintf("text of a Stringer that is a TextMarshaler as well not preserved (or not quoted): %q", p.Raw)
+			}
+			return ""
+		}})
+	add(valSpec{Name: "error+textmarshaler", Kind: "error", Mk: func() any { return tmError{"te \"x\" y=z\n"} },
+		JSON: func(j any) string {
+			if o, ok := j.(*jsonx.Obj); ok {
+				if m, ok := o.Get("message"); ok {
+					j = m
+				}
+			}
+			return jsonStringIs(j, "te \"x\" y=z\n")
+		},
+		Logfmt: func(p logfmt.Pair) string {
+			if !p.Quoted || p.Val != "te \"x\" y=z\n" {
+				return fmt.Sprintf("text of an error that is a TextMarshaler as well not preserved (or not quoted): %q", p.Raw)
+			}
+			return ""
+		}})
 	add(valSpec{Name: "typed-nil-pointer", Kind: "fallback", Mk: func() any { return (*structV)(nil) }, JSON: anyOK, Logfmt: anyPair})
 	add(valSpec{Name: "level", Kind: "level", Mk: func() any { return slog.WarnLevel },
 		JSON: func(j any) string { return jsonStringIs(j, slog.WarnLevel.String()) },
@@ -697,3 +723,22 @@ func plainVals() (r []*valSpec) {
 	}
 	return
 }
+
+type tnErr struct{ s string }
+
+func (e *tnErr) Error() string {
+	if e == nil {
+		return "typed-nil error"
+	}
+	return e.s
+}
+
+type tmStringer struct{ s string }
+
+func (v tmStringer) String() string               { return v.s }
+func (v tmStringer) MarshalText() ([]byte, error) { return []byte(v.s), nil }
+
+type tmError struct{ s string }
+
+func (v tmError) Error() string                { return v.s }
+func (v tmError) MarshalText() ([]byte, error) { return []byte(v.s), nil }
